@@ -23,6 +23,7 @@ PARAMS = [
     ('trypsin', None, 2, 500., 7, 25),
     ('lysc', 'auto', 1, 0., 5, 30),
     ('trypsin', 'auto', 1, 500., 7, 25),
+    ('trypsin', 'auto', 2, 500.9, 7, 25),      # differs from the first set only in the fraction of the minimum mass
 ]
 OPS = ['gen', 'genf', 'upd', 'updf', 'load']
 # 'stale': environment event, not a command - the recorded versions no longer match the running environment (index written by
